@@ -1,4 +1,4 @@
-import GmQuic.Lemmas.Recovery
+import GmQuic.Lemmas.RecoveryBal
 /-!
 # C13 — loss detection and congestion control (qcongestion, NewReno)
 
@@ -244,5 +244,43 @@ theorem inflight_bounded_by_window_partial (s : St) (pacerTokens : Nat) (h : pac
   unfold sendQuota; simp; omega
 
 example : ∃ (s : St) (t : Nat), t < s.mds := ⟨{}, 0, by decide⟩
+
+
+/-! ## bytes in flight = sizes of the packets still outstanding -/
+
+/-- For every history of controller calls from `ArcCC::new`, with arbitrary RTT inputs: `bytes_in_flight` equals
+the sum of the sizes of the packets that are `Inflight` and counted for congestion control, over the three spaces. -/
+theorem inflight_is_sum (server : Bool) (mtu mad : Nat) (s0 s : St) (h : List (Inp × Op))
+    (hi : initSt server mtu mad = .ok s0) (hr : run s0 h = .ok s) : s.bytes = outstandingAll s :=
+  run_bal hr (initSt_bal hi)
+
+example : ∃ s0 s, initSt false 1500 0 = .ok s0 ∧
+    run s0 [(inp0, .grant), (inp0, .sent 0 0 true true 700), (inp0, .sent 0 1 false false 90)] = .ok s ∧ s.bytes = 700 :=
+  ⟨_, _, rfl, rfl, by decide⟩
+
+/-- hence the unchecked `bytes_in_flight -= sent_bytes` of `remove_from_bytes_in_flight` (discarding a space)
+never underflows in a reachable state -/
+theorem discard_never_underflows (s : St) (e : Nat) (hb : s.bytes = outstandingAll s) :
+    ∃ b, removeFromBytes ((getSp s e).sent.filter fun p => p.st == PSt.I) s.bytes = .ok b :=
+  removeFromBytes_ok _ _ (by have := outstanding_le_all s e; omega)
+
+example : ∃ s : St, s.bytes = outstandingAll s := ⟨{}, by decide⟩
+
+/-! ## every ack-eliciting packet in flight is acknowledged, declared lost, or a timer is armed -/
+
+/-- `set_loss_detection_timer` (which ends `on_packet_sent` for in-flight packets, `on_ack_rcvd` with newly
+acknowledged packets, `on_loss_detection_timeout` and `discard_epoch`) leaves a timer armed whenever the endpoint
+is not at the anti-amplification limit and an ack-eliciting packet is `Inflight` in the Initial or Handshake
+space, or in the Data space once the handshake is confirmed (RFC 9002 §6.2.1 forbids arming the PTO for
+Application Data before). -/
+theorem outstanding_resolved (s s' : St) (srtt rttvar : Nat) (h : setTimer s srtt rttvar = .ok s')
+    (haa : s.aaLimit = false)
+    (hout : noElic s.s0 = false ∨ noElic s.s1 = false ∨ (noElic s.s2 = false ∧ s.confirmed = true)) :
+    s'.timer.isSome = true :=
+  setTimer_armed h haa hout
+
+example : ∃ s s' : St, setTimer s 33000000 16500000 = .ok s' ∧ s.aaLimit = false ∧ noElic s.s0 = false :=
+  ⟨{ aaLimit := false, s0 := { tl := some 0, sent := [{ pn := 0, ts := 0, elic := true, cc := true, size := 1200, st := PSt.I }] } },
+   _, rfl, rfl, by decide⟩
 
 end GmQuic.Props.C13
